@@ -39,6 +39,7 @@ type Chain struct {
 	Pair   *key.Pair
 	Group  *key.Group
 	Share  *key.Share
+	Shares []*key.Share // of every member (index order); the harness acts for the others
 	Info   *pubchain.Info
 	Hash   []byte
 	PubKey kyber.Point
@@ -61,31 +62,87 @@ type Bench struct {
 	Period   time.Duration
 }
 
+// Member is another member of a fabricated group (its key pair is derived from the label, so that the harness can
+// act for it).
+type Member struct {
+	Label string `json:"label"`
+	Addr  string `json:"addr"`
+}
+
+func (m Member) Pair(sch *crypto.Scheme) *key.Pair { return fix.DetKeyPair(m.Label, m.Addr, sch) }
+
+// material derives the deterministic key material of a chain: the daemon's pair, the group (the daemon is index 0, the
+// other members follow; threshold = majority) and the private polynomial.
+func material(id, schemeID, addr string, period time.Duration, genesis int64, others []Member) (*Chain, *share.PriPoly, error) {
+	sch, err := crypto.SchemeFromName(schemeID)
+	if err != nil {
+		return nil, nil, err
+	}
+	kp := fix.DetKeyPair("bench/"+id+"/"+schemeID, addr, sch)
+	n := 1 + len(others)
+	thr := n/2 + 1
+	pri := share.NewPriPoly(sch.KeyGroup, thr, nil, fix.DetStream("bench-poly/"+id+"/"+schemeID))
+	_, commits := pri.Commit(sch.KeyGroup.Point().Base()).Info()
+	nodes := []*key.Node{{Identity: kp.Public, Index: 0}}
+	for i, m := range others {
+		nodes = append(nodes, &key.Node{Identity: m.Pair(sch).Public, Index: uint32(i + 1)})
+	}
+	g := &key.Group{Threshold: thr, Period: period, Scheme: sch, ID: id, CatchupPeriod: 0, GenesisTime: genesis,
+		Nodes: nodes, PublicKey: &key.DistPublic{Coefficients: commits}}
+	g.GenesisSeed = g.Hash()
+	c := &Chain{ID: id, Scheme: sch, Pair: kp, Group: g}
+	for _, s := range pri.Shares(n) {
+		c.Shares = append(c.Shares, &key.Share{DistKeyShare: kdkg.DistKeyShare{Share: s, Commits: commits}, Scheme: sch})
+	}
+	c.Share = c.Shares[0]
+	c.Info = pubchain.NewChainInfo(g)
+	c.Hash = c.Info.Hash()
+	c.PubKey = g.PublicKey.Key()
+	return c, pri, nil
+}
+
 // Fabricate writes the files of a 1-of-1 chain into the daemon folder.
 func Fabricate(folderMB, id, schemeID, addr string, period time.Duration, genesis int64) (*Chain, error) {
-	sch, err := crypto.SchemeFromName(schemeID)
+	return FabricateGroup(folderMB, id, schemeID, addr, period, genesis, nil)
+}
+
+// FabricateGroup writes the files of a chain whose group is the daemon plus the given other members.
+func FabricateGroup(folderMB, id, schemeID, addr string, period time.Duration, genesis int64, others []Member) (*Chain, error) {
+	c, _, err := material(id, schemeID, addr, period, genesis, others)
 	if err != nil {
 		return nil, err
 	}
-	kp := fix.DetKeyPair("bench/"+id+"/"+schemeID, addr, sch)
-	pri := share.NewPriPoly(sch.KeyGroup, 1, nil, fix.DetStream("bench-poly/"+id+"/"+schemeID))
-	_, commits := pri.Commit(sch.KeyGroup.Point().Base()).Info()
-	g := &key.Group{Threshold: 1, Period: period, Scheme: sch, ID: id, CatchupPeriod: 0, GenesisTime: genesis,
-		Nodes: []*key.Node{{Identity: kp.Public, Index: 0}}, PublicKey: &key.DistPublic{Coefficients: commits}}
-	g.GenesisSeed = g.Hash()
 	ks := key.NewFileStore(folderMB, id)
-	if err := ks.SaveKeyPair(kp); err != nil {
+	if err := ks.SaveKeyPair(c.Pair); err != nil {
 		return nil, err
 	}
-	if err := ks.SaveGroup(g); err != nil {
+	if err := ks.SaveGroup(c.Group); err != nil {
 		return nil, err
 	}
-	sh := &key.Share{DistKeyShare: kdkg.DistKeyShare{Share: pri.Shares(1)[0], Commits: commits}, Scheme: sch}
-	if err := ks.SaveShare(sh); err != nil {
+	if err := ks.SaveShare(c.Share); err != nil {
 		return nil, err
 	}
-	info := pubchain.NewChainInfo(g)
-	return &Chain{ID: id, Scheme: sch, Pair: kp, Group: g, Share: sh, Info: info, Hash: info.Hash(), PubKey: g.PublicKey.Key()}, nil
+	return c, nil
+}
+
+// ChainOf recomputes (deterministically) the material of a chain of a child daemon without touching the disk.
+func ChainOf(cs ChainSpec, sp Spec) *Chain {
+	sch, err := crypto.SchemeFromName(cs.Scheme)
+	if err != nil {
+		panic(err)
+	}
+	if cs.Kind == "fresh" {
+		return &Chain{ID: cs.ID, Scheme: sch, Pair: fix.DetKeyPair("bench/"+cs.ID+"/"+cs.Scheme, sp.identity(), sch)}
+	}
+	var others []Member
+	if cs.Kind == "group" {
+		others = sp.Members
+	}
+	c, _, err := material(cs.ID, cs.Scheme, sp.identity(), time.Duration(sp.PeriodS)*time.Second, sp.Genesis, others)
+	if err != nil {
+		panic(err)
+	}
+	return c
 }
 
 // Start fabricates the chains, starts a real daemon on them and connects clients.
